@@ -20,6 +20,11 @@
     once_hint_irrelevant buffer_hint_irrelevant lazy_eq_eager window_footprint
     matcher_state_in_sync output_wellnested select_keeps_nesting
     lawful_single lawful_simple lawful_generic positional_not_lawful root_context_not_matched
+    matcher_simulation real_matcher_flagfree real_matcher_lawful_abstraction nonpositional_paths_ok
+    real_templates_okt real_filter_is_chain_of_rewrites real_template_rewrites_marked_elements
+    marked_elements_are_xpath_matches real_positional_not_lawful real_positional_counts_per_closure
+    once_on_trees stage_counts_matches late_registration_applies_from_there_on lazy_eq_eager_late
+    select_is_path_select real_once_on_trees
 -/
 import Genshi.Lemmas.MatchSync
 import Genshi.Lemmas.MatchPipe
@@ -35,6 +40,12 @@ import Genshi.Lemmas.MatchChain
 import Genshi.Model.MatchPath
 import Genshi.Model.MatchLazy
 import Genshi.Gen.MatchHints
+import Genshi.Lemmas.MatchRealSpec
+import Genshi.Lemmas.MatchOnceSpec
+import Genshi.Lemmas.MatchLate
+import Genshi.Lemmas.MatchSelect
+import Genshi.Lemmas.MatchRealOnce
+import Genshi.Props.C05
 namespace Genshi.Props.C12
 open Genshi Genshi.Match
 
@@ -434,5 +445,308 @@ example : BodyOK tWrap.body := by
   intro st; simp [tWrap, mkMT, MT.ofHints, trackB, track, S, E]
 example : WellNested (evs doc1) := by decide
 end Examples
+
+/-! ### the real matcher: `Path(text).test(ignore_context=True)` of the C05/C17 path model
+
+  `mkReal paths ns vs body hints` (Model/MatchReal.lean) is the entry `MatchDirective` registers: the
+  closure of the path model (`pathTest … true`: strategy per location path as `Path.__init__` picks it,
+  `_multi` for unions), verdict `result is True`.  The theorems above are parametric in the matcher;
+  here the parameter is discharged. -/
+
+open Genshi.Path in
+/-- **The filter does not look inside a matcher.**  Two item lists and two template lists — over
+    *different* matcher state types — that are related slot by slot by a simulation (`TRel`: a relation
+    between the matcher states that every step on a START/END keeps, with equal verdicts; equal body
+    and hints) are treated alike: both runs fail, or both succeed with the same output and related
+    template lists.  For every stream, window and fuel. -/
+theorem matcher_simulation {σ τ : Type} (f s : Nat) (en : Option Nat) {X : List (Item σ)} {Y : List (Item τ)}
+    {A : List (MT σ)} {B : List (MT τ)} (hX : IRel X Y) (hA : LRel A B) :
+    ResRel (run f s en X A) (run f s en Y B) :=
+  run_rel f s en hX hA
+
+open Genshi.Path in
+/-- The real closure never reads `updateonly` — for every path, positional or not, every strategy.
+    So `pipeline_stages`, `identity_body_is_identity`, `lazy_eq_eager` and `buffer_hint_irrelevant`
+    (which ask `FlagFree` only) hold for lists of real templates as they stand. -/
+theorem real_matcher_flagfree (paths : List LocPath) (ns : NsMap) (vs : Vars) (body : List BItem) (h : Hints)
+    (force : Option Strategy) : FlagFree (mkReal paths ns vs body h force) :=
+  real_flagFree ns vs paths body h force
+
+open Genshi.Path in
+theorem real_templates_okt (ns : NsMap) (vs : Vars) (d : Decl) (hb : BodyOK d.body) : OKt (d.real ns vs) :=
+  ⟨hb, real_flagFree ns vs d.paths d.body d.hints d.force⟩
+
+open Genshi.Path in
+/-- **Lawful up to simulation.**  For a union of location paths without position tests (`PathsOk`) the
+    real closure is simulated by a machine (`mkAbs`: per path the position machine `aStep` of C05 for
+    GenericStrategy, the strategy itself for SingleStep/SimplePath; `_multi` on top) that obeys the law
+    "the END of an element undoes its START" in *every* state, ignores `updateonly`, and is not moved
+    by events other than START and END. -/
+theorem real_matcher_lawful_abstraction (paths : List LocPath) (ns : NsMap) (vs : Vars) (body : List BItem) (h : Hints)
+    (force : Option Strategy) (hok : PathsOk ns vs paths force) :
+    TRel (mkReal paths ns vs body h force) (mkAbs ns vs paths body h force) ∧
+    Lawful (mkAbs ns vs paths body h force) ∧ FlagFree (mkAbs ns vs paths body h force) ∧
+    LeafFree (mkAbs ns vs paths body h force) :=
+  ⟨real_trel ns vs paths body h force hok, abs_lawful ns vs paths body h force hok,
+   abs_flagFree ns vs paths body h force, abs_leafFree ns vs paths body h force hok⟩
+
+open Genshi.Path in
+/-- **The lawful subset is static and decidable per path**: GenericStrategy — the hypotheses of C05
+    (`StepsOk`: element axes only, well-formed tests, typed predicates, none of them numeric
+    `Expr.numTyped`) on the pattern-mode step list; SingleStepStrategy — no numeric predicate on the
+    step; SimplePathStrategy — every path it supports. -/
+theorem nonpositional_paths_ok (ns : NsMap) (vs : Vars) (paths : List LocPath) (force : Option Strategy)
+    (h : ∀ p ∈ paths, PatternOk ns vs force p) : PathsOk ns vs paths force :=
+  pathsOk_of_patternOk ns vs paths force h
+
+open Genshi.Path in
+/-- **filter_is_chain_of_rewrites for real templates.**  A template list made of `<py:match>`
+    declarations without position tests (any union of paths, any strategy), the templates of the window
+    `[s, s+k)` without `once`: on every forest the filter is the chain of tree rewrites
+    (`specList` of the *real* templates: an element is replaced iff the real closure answers `True` in
+    the state reached along the element's ancestors), one rewrite per template, in declaration order. -/
+theorem real_filter_is_chain_of_rewrites (ns : NsMap) (vs : Vars) (ds : List Decl) (hok : ∀ d ∈ ds, d.ok ns vs)
+    (hb : ∀ d ∈ ds, BodyOK d.body) (k s f : Nat) (forest : List Node) (r : List (MT RSt) × List Event)
+    (hns : okList forest = true)
+    (hst : ∀ j d, s ≤ j → j < s + k → ds[j]? = some d → d.hints.matchOnce = false) (hlen : s + k ≤ ds.length)
+    (h : run f s (some (s + k)) (evItems (flattenList forest)) (ds.map (Decl.real ns vs)) = some r) :
+    Chain (ds.map (Decl.real ns vs)) s k forest r.2 :=
+  real_run_is_chain ns vs ds hok hb k s f forest r hns hst hlen h
+
+open Genshi.Path in
+/-- **Exactly the elements the pattern matcher marks.**  The stage that owns declaration `d` (slot `i`;
+    no `once`, no position tests) yields the forest rewritten by marks (`mkKids`): the element whose
+    START is the n-th event of a top-level tree is replaced by the body iff the pattern matcher of the
+    path model — `Path(text).test(ignore_context=True)` started afresh on that tree and shown every
+    event (`patternMarks`, the run C05 `pattern_matches_eq_xp` is about) — reports `True` at that
+    event; all other events pass.  Top-level trees are the children of the template's root after the
+    declarations: the root itself is not shown to the matcher (known finding C12-root-context). -/
+theorem real_template_rewrites_marked_elements (ns : NsMap) (vs : Vars) (ds : List Decl) (hok : ∀ d ∈ ds, d.ok ns vs)
+    (i : Nat) (d : Decl) (hd : ds[i]? = some d) (ho : d.hints.matchOnce = false)
+    (f : Nat) (forest : List Node) (r : List (MT RSt) × List Event) (hns : okList forest = true)
+    (h : run f i (some (i + 1)) (evItems (flattenList forest)) (ds.map (Decl.real ns vs)) = some r) :
+    r.2 = specList (d.real ns vs) (d.real ns vs).st [] forest ∧
+    r.2 = (mkKids d.body (!d.hints.notRecursive) forest (forest.flatMap (patternMarks d.paths ns vs d.force))).1 :=
+  real_stage_is_marks ns vs ds hok i d hd ho f forest r hns h
+
+open Genshi.Path in
+/-- **The marked elements are the XPath matches** (C05 `pattern_matches_eq_xp` in the vocabulary of the
+    previous theorem).  For a path `s0/rest` without position tests and without a leading `.` under
+    GenericStrategy, and a tree `top`: the marks are the truth values of the matcher's results, and the
+    event of a node `x` is marked iff `descendant-or-self::s0/rest` reaches `x` from the top of the tree
+    in the reference semantics (`Ref.reach`) — the XSLT-pattern reading of the path inside `top`. -/
+theorem marked_elements_are_xpath_matches (s0 : Step) (rest : LocPath) (ns : NsMap) (vs : Vars)
+    (hp : StepsOk ns vs (s0 :: rest)) (hnd : stripDot (s0 :: rest) = s0 :: rest)
+    (tag : QName) (attrs : AttrList) (kids : List Node)
+    (hcl : (Node.elem tag attrs kids).clean = true)
+    (hnodes : AllNodes (NodeFor (s0 :: rest) ns vs) (.elem tag attrs kids)) (x : Ref.LNode) :
+    PatternOk ns vs (some .generic) (s0 :: rest) ∧
+    patternMarks [s0 :: rest] ns vs (some .generic) (.elem tag attrs kids) =
+      (runTest (pathTest [s0 :: rest] true (some .generic)).1 ns vs (pathTest [s0 :: rest] true (some .generic)).2
+        (Node.elem tag attrs kids).flatten).map Val.truthy ∧
+    selB (runTest (pathTest [s0 :: rest] true (some .generic)).1 ns vs
+            (pathTest [s0 :: rest] true (some .generic)).2 (Node.elem tag attrs kids).flatten)
+         (eventLocs (.elem tag attrs kids) []) x.loc
+      = Ref.reach ns (toXVars vs) (⟨.descendantOrSelf, s0.test, s0.preds⟩ :: rest)
+          ⟨[], .elem tag attrs kids⟩ x := by
+  have hs := stepsOk_pattern ns vs s0 rest hp hnd
+  have hok : StepsOk ns vs (gSteps (s0 :: rest) true) := by rw [hs.1]; exact hs.2
+  exact ⟨hok, patternMarks_truthy ns vs _ hok _,
+    Genshi.Props.C05.pattern_matches_eq_xp s0 rest ns vs hp hnd tag attrs kids hcl hnodes x⟩
+
+/-! #### position tests: outside the law -/
+
+section RealExamples
+open Genshi.Path
+
+/-- `*[2]` as the parser delivers it -/
+def pStar2 : LocPath := [⟨.child, .principal false, [.num (.dec false 2 0)]⟩]
+
+/-- With a position test the law fails for the real closure too: the counter of SingleStepStrategy is
+    one per closure and is advanced by every START the closure is shown; the END does not undo it. -/
+theorem real_positional_not_lawful : ¬ Lawful (mkReal [pStar2] [] [] [] ⟨false, false, false⟩) := by
+  intro h
+  have h1 := h (pathTest [pStar2] true).2 ⟨[], ['a']⟩ [] false false
+  have h2 := congrArg (fun st : RSt => match st with | [MState.s s] => some s.counters | _ => none) h1
+  revert h2
+  decide +kernel
+
+/-- **The per-closure counting semantics, made explicit on a witness.**  `*[2]` as a match path does not
+    mean "second element child of its parent" (XPath: in `<x><a/></x>` no element is a second child):
+    the closure counts the STARTs it is shown, whatever their parents, so the `<a>` — the second START
+    of the document below the root — is replaced.  Position tests in match paths are therefore excluded
+    from the tree-rewrite theorems by the decidable hypothesis `PatternOk`. -/
+theorem real_positional_counts_per_closure :
+    render 30 [.ev (S 'r'), .reg (mkReal [pStar2] [] [] [.ev (T 'k')] noHints),
+               .ev (S 'x'), .ev (S 'a'), .ev (E 'a'), .ev (E 'x'), .ev (E 'r')]
+      = some [S 'r', S 'x', T 'k', E 'x', E 'r'] := by
+  decide +kernel
+
+/-- `a//c[@k]`: child `a`, `descendant-or-self::node()`, child `c` with an attribute predicate
+    (GenericStrategy) → `<x/>` -/
+def pACk : LocPath := [⟨.child, .localName false ['a'], []⟩, ⟨.descendantOrSelf, .node, []⟩,
+  ⟨.child, .localName false ['c'], [.test (.localName true ['k'])]⟩]
+def dACk : Decl := { paths := [pACk], body := [.ev (S 'x'), .ev (E 'x')], hints := noHints }
+/-- `b` (SingleStepStrategy) → `<w>${select('*')}</w>` -/
+def dB : Decl := { paths := [[⟨.child, .localName false ['b'], []⟩]], body := [.ev (S 'w'), .sel .elems, .ev (E 'w')],
+                   hints := noHints }
+/-- `a/b|c` — a union served by SimplePathStrategy and SingleStepStrategy -/
+def dU : Decl := { paths := [[⟨.child, .localName false ['a'], []⟩, ⟨.child, .localName false ['b'], []⟩],
+                             [⟨.child, .localName false ['c'], []⟩]], body := [.sel .self], hints := noHints }
+
+theorem stepsOk_pACk : StepsOk [] [] pACk := by
+  refine ⟨by decide, ?_, ?_, ?_, ?_⟩ <;> intro s hs <;> simp only [pACk, List.mem_cons, List.not_mem_nil, or_false] at hs <;>
+    rcases hs with rfl | rfl | rfl <;> simp [NodeTest.elemWf, Expr.typed, Expr.numTyped, NodeTest.isAttrName, NodeTest.wf, nameOk]
+
+example : dACk.ok [] [] := by
+  apply pathsOk_of_patternOk
+  intro p hp
+  simp only [dACk, List.mem_cons, List.not_mem_nil, or_false] at hp
+  subst hp
+  have hch : stratOf none pACk = .generic := by decide +kernel
+  show PatternOkS [] [] (stratOf none pACk) pACk
+  rw [hch]
+  exact (by
+    have := stepsOk_pattern [] [] _ _ stepsOk_pACk (by decide)
+    show StepsOk [] [] (gSteps pACk true)
+    rw [show pACk = _ :: _ from rfl, this.1]; exact this.2)
+
+example : dB.ok [] [] ∧ dU.ok [] [] := by
+  constructor <;> apply pathsOk_of_patternOk <;> intro p hp
+  · simp only [dB, List.mem_cons, List.not_mem_nil, or_false] at hp
+    subst hp
+    have hch : stratOf none [⟨.child, .localName false ['b'], []⟩] = .single := by decide +kernel
+    show PatternOkS [] [] (stratOf none [⟨.child, .localName false ['b'], []⟩]) _
+    rw [hch]
+    intro s0 hs q hq
+    simp [sSteps] at hs; subst hs; simp at hq
+  · simp only [dU, List.mem_cons, List.not_mem_nil, or_false] at hp
+    rcases hp with rfl | rfl
+    · have hch : stratOf none [⟨.child, .localName false ['a'], []⟩, ⟨.child, .localName false ['b'], []⟩] = .simple := by
+        decide +kernel
+      show PatternOkS [] [] (stratOf none [⟨.child, .localName false ['a'], []⟩, ⟨.child, .localName false ['b'], []⟩]) _
+      rw [hch]; trivial
+    · have hch : stratOf none [⟨.child, .localName false ['c'], []⟩] = .single := by decide +kernel
+      show PatternOkS [] [] (stratOf none [⟨.child, .localName false ['c'], []⟩]) _
+      rw [hch]
+      intro s0 hs q hq
+      simp [sSteps] at hs; subst hs; simp at hq
+
+/-- `<a><b><c k="1"/><c/></b></a><c k="2"/>`: only the first `<c>` is below an `<a>` and has `k` -/
+def forestR : List Node :=
+  [.elem ⟨[], ['a']⟩ [] [.elem ⟨[], ['b']⟩ [] [.elem ⟨[], ['c']⟩ [(⟨[], ['k']⟩, ['1'])] [], .elem ⟨[], ['c']⟩ [] []]],
+   .elem ⟨[], ['c']⟩ [(⟨[], ['k']⟩, ['2'])] []]
+
+/-- the real filter on it, templates `[a//c[@k] → <x/>, b → <w>*</w>]` -/
+example : (run 60 0 (some 2) (evItems (flattenList forestR)) [dACk.real [] [], dB.real [] []]).map (·.2)
+    = some [S 'a', S 'w', S 'x', E 'x', .start ⟨[], ['c']⟩ [], E 'c', E 'w', E 'a',
+            .start ⟨[], ['c']⟩ [(⟨[], ['k']⟩, ['2'])], E 'c'] := by decide +kernel
+
+/-- the marks of `a//c[@k]` on the first tree: the fourth event (the START of the first `<c>`) -/
+example : patternMarks dACk.paths [] [] none (forestR.headD (.leaf (T 'u')))
+    = [false, false, true, false, false, false, false, false] := by decide +kernel
+
+/-- … and the rewrite by marks is what the filter's first stage yields -/
+example : (mkKids dACk.body true forestR (forestR.flatMap (patternMarks dACk.paths [] [] none))).1
+    = ((run 60 0 (some 1) (evItems (flattenList forestR)) [dACk.real [] [], dB.real [] []]).map (·.2)).getD [] := by
+  decide +kernel
+
+end RealExamples
+
+/-! ### `once` on trees -/
+
+/-- **`once` in the tree specification** (the property's clause "the once hint does not change the
+    output when at most one element matches", stated on trees).  Take a lawful template `t` without
+    the hint in slot `i` and a forest in which its matcher fires at most once — counted on the tree by
+    `countList`: the elements at which the matcher answers True in the state reached along their
+    ancestors, below a replaced element only when the template is recursive.  Then the stage of that
+    slot *with `once="true"` set* yields the tree rewrite `specList` of the unhinted template.
+    (`stage_is_spec_hits`: the ghost counter of the stage rises by exactly `countList`; then
+    `once_hint_irrelevant`'s simulation on the window of the stage.) -/
+theorem once_on_trees {σ : Type} (t : MT σ) (i : Nat) (hl : Lawful t) (ho : t.once = false) (hr : t.retired = false)
+    (f : Nat) (ns : List Node) (M : List (MT σ)) (r : List (MT σ) × List Event) (hns : okList ns = true)
+    (ht : M[i]? = some t) (h : run f i (some (i + 1)) (evItems (flattenList ns)) M = some r)
+    (hfew : countList t t.st [] ns ≤ 1) :
+    ∃ c', run f i (some (i + 1)) (evItems (flattenList ns)) (M.set i (onceAt t)) = some (c', specList t t.st [] ns) :=
+  once_stage_is_spec t i hl ho hr f ns M r hns ht h hfew
+
+/-- the stage replaces exactly the elements the tree specification counts -/
+theorem stage_counts_matches {σ : Type} (t : MT σ) (b : σ) (i : Nat) (hl : Lawful t) (ho : t.once = false)
+    (f : Nat) (ns : List Node) (anc : List Open) (M : List (MT σ)) (r : List (MT σ) × List Event) (k : Nat)
+    (hns : okList ns = true) (hslot : SlotAtH i t b anc k M)
+    (h : run f i (some (i + 1)) (evItems (flattenList ns)) M = some r) :
+    r.2 = specList t b anc ns ∧ SlotAtH i t b anc (k + countList t b anc ns) r.1 :=
+  stage_is_spec_hits t b i hl ho f ns anc M r k hns hslot h
+
+/-- non-vacuity: `a/b` fires once in `forest1`; with `once` the stage gives the same rewrite -/
+example : countList tAB {} [] forest1 = 1 := by decide
+example : (run 30 0 (some 1) (evItems (flattenList forest1)) [onceAt tAB]).map (·.2) = some (specList tAB {} [] forest1) := by
+  decide
+
+/-! ### registrations inside the stream -/
+
+/-- **A template registered later applies only from that point on.**  For a closed segment `A` of the
+    stream (which may itself contain registrations), a registration of `t` and any rest `B`: the filter
+    over `A · reg t · B` is the filter over `A` with the list as it stands — output and resulting list
+    do not depend on `t` or `B` — followed by the filter over `B` with `t` appended to that list. -/
+theorem late_registration_applies_from_there_on {σ : Type} (f s : Nat) (en : Option Nat) (A : List (Item σ)) (t : MT σ)
+    (B : List (Item σ)) (M : List (MT σ)) (r : List (MT σ) × List Event) (hcl : Closed (evs A))
+    (h : run f s en (A ++ .reg t :: B) M = some r) :
+    ∃ r1 r2, run f s en A M = some r1 ∧ run f s en B (r1.1 ++ [t]) = some r2 ∧ r = (r2.1, r1.2 ++ r2.2) :=
+  run_reg_split f s en A t B M r hcl h
+
+/-- **lazy_eq_eager with registrations inside the stream** (`Segmented`: the registrations sit between
+    closed, well-nested, registration-free segments — `py:match` declarations that are children of the
+    root, before or between the content).  The automaton honouring `buffer="false"` yields what the
+    eager filter yields, for templates registered before the stream and inside it alike. -/
+theorem lazy_eq_eager_late {σ : Type} (items : List (Item σ)) (hseg : Segmented items) (f : Nat) (mts : List (MT σ))
+    (r : List (MT σ) × List Event) (hok : ∀ t ∈ mts, LazyOK t) (hreg : ∀ t, Item.reg t ∈ items → LazyOK t)
+    (h : run f 0 none items mts = some r) (F : Nat) (hF : f ≤ F) :
+    runL F .idle items mts = some (.idle, r.1, r.2) :=
+  lazy_eq_eager_segmented items hseg f mts r hok hreg h F hF
+
+/-- non-vacuity: a declaration after some content (`<a/>` passes, the `<a/>` after the declaration is wrapped) -/
+def docLate : List (Item PSt) := [.ev (S 'a'), .ev (E 'a'), .reg tWrap, .ev (S 'a'), .ev (S 'b'), .ev (E 'b'), .ev (E 'a')]
+example : Segmented docLate := by
+  refine Segmented.cons [.ev (S 'a'), .ev (E 'a')] tWrap _ ?_ ?_ ?_ (Segmented.last _ ?_ ?_)
+  · intro t ht; simp at ht
+  · intro st; simp [evs, track, S, E]
+  · simp [Closed, evs, lvl, isStart, isEnd, S, E]
+  · intro t ht; simp at ht
+  · intro st; simp [evs, track, S, E]
+example : (run 30 0 none docLate []).map (·.2) = some [S 'a', E 'a', S 'w', S 'b', E 'b', E 'w'] := by decide
+
+/-! ### select() inside the body is `Path.select` of the path model -/
+
+open Genshi.Path in
+/-- **select() returns what the path model's `Path.select` returns** for the six body paths, on every
+    START/END/TEXT stream that closes no more than it opened — in particular on the content
+    `START · … · END` of a matched element.  By C05 `select_eq_xp_step` (single steps) and
+    `select_eq_xp_union` that selection is the XPath node set of the path with the matched element as
+    context node (`select_returns_parts` spells it out: the element itself / the children the node test accepts). -/
+theorem select_is_path_select (s : Sel) (es : List Event) (k : Nat) (hset : ∀ e ∈ es, isSET e = true)
+    (hl : lvl 0 es = some k) :
+    (select s es).map Path.Item.ev = Path.select s.paths [] [] es :=
+  select_eq_path_select s es k hset hl
+
+example : (select .elems [S 'a', S 'b', E 'b', T 'u', E 'a']).map Path.Item.ev
+    = Path.select (Sel.paths .elems) [] [] [S 'a', S 'b', E 'b', T 'u', E 'a'] := by decide +kernel
+
+
+open Genshi.Path in
+/-- **`once` on trees for real templates**: declarations without position tests, the declaration of slot
+    `i` without the hint; on a forest in which its real matcher fires at most once (`countList` of the
+    real template) the stage with `once="true"` set yields the tree rewrite of the unhinted template. -/
+theorem real_once_on_trees (ns : NsMap) (vs : Vars) (ds : List Decl) (hok : ∀ d ∈ ds, d.ok ns vs)
+    (i : Nat) (d : Decl) (hd : ds[i]? = some d) (ho : d.hints.matchOnce = false)
+    (f : Nat) (forest : List Node) (r : List (MT RSt) × List Event) (hns : okList forest = true)
+    (h : run f i (some (i + 1)) (evItems (flattenList forest)) (ds.map (Decl.real ns vs)) = some r)
+    (hfew : countList (d.real ns vs) (d.real ns vs).st [] forest ≤ 1) :
+    ∃ c', run f i (some (i + 1)) (evItems (flattenList forest)) ((ds.map (Decl.real ns vs)).set i (onceAt (d.real ns vs)))
+      = some (c', specList (d.real ns vs) (d.real ns vs).st [] forest) :=
+  real_once_stage_is_spec ns vs ds hok i d hd ho f forest r hns h hfew
+
+/-- non-vacuity: `a//c[@k]` fires once in `forestR` -/
+example : countList (dACk.real [] []) (dACk.real [] []).st [] forestR = 1 := by decide +kernel
 
 end Genshi.Props.C12
